@@ -11,7 +11,7 @@ type lemmaHolder struct{}
 func (e *Engine) lemmaObligations() ([]*Obl, error) {
 	var out []*Obl
 	for _, l := range e.lemmas {
-		fe := &FuncEnc{eng: e, name: "lemma." + l.Pkg, declared: map[string]bool{}, inlined: map[string]bool{}, trusted: map[string]bool{}, assumes: map[string]bool{}, bvOffsets: map[string]bvOffset{}}
+		fe := &FuncEnc{eng: e, name: "lemma." + l.Pkg, declared: map[string]bool{}, inlined: map[string]bool{}, trusted: map[string]bool{}, assumes: map[string]bool{}, bvOffsets: map[string]bvOffset{}, consts: map[string]bool{}}
 		f := &Frame{params: map[string]Term{}, ptypes: map[string]types.Type{}, labelCnt: map[string]int{}}
 		fe.cur = f
 		var err error
